@@ -57,6 +57,11 @@ def constExt (n : Nat) : Ext := fun _ => n
 /-- a run is safe when it ends with a return code, not with a fault -/
 def Safe {α : Type} (r : R α) : Prop := ∃ x, r = .ok x
 
+/-- the run ended without fault -/
+def isOk {α : Type} : R α → Bool
+  | .ok _ => true
+  | .error _ => false
+
 /-- checked access `b[i]` (read or write) -/
 def acc (e : Ext) (b : Buf) (i : Int) : R Unit :=
   if 0 ≤ i ∧ i < (e b : Int) then .ok () else .error (.oob b i)
